@@ -56,7 +56,9 @@ def check(pm: ProgramModel, ctx: Ctx) -> None:
     it = Interp(pm, max_depth=60)
     memo: list[Any] = [None, None]              # (constraint object, its split), one at a time
 
-    def split_memo(c_: Any) -> Any:
+    def split_memo(c_: Any, *more: Any, **kw: Any) -> Any:
+        if more or kw:                       # called with further arguments: not the call this memo is for
+            return it.call(split, [c_] + list(more), kw, skip_native=True)
         if memo[0] is not c_:
             memo[0], memo[1] = c_, it.call(split, [c_], skip_native=True)
         return memo[1]
